@@ -1,5 +1,5 @@
 import StraxModel.Model.Superrun
-import StraxModel.Lemmas.ChunkAlg
+import StraxModel.Lemmas.ChunkAlgChunk
 /-
   Helper lemmas for property C14 (superruns).  Core Lean only.
 -/
@@ -10,13 +10,11 @@ open Strax
 
 theorem sortIds_perm (l : List String) : (sortIds l).Perm l := List.mergeSort_perm _ _
 
-theorem superrunKey_inj {H : List String → Bool → String}
+theorem superrunKey_inj {κ : Type} {H : List String → Bool → κ}
     (hH : ∀ a b c d, H a b = H c d → a = c ∧ b = d) {name : String} {s1 s2 : List String} {c1 c2 : Bool}
     (h : superrunKey H name s1 c1 = superrunKey H name s2 c2) : sortIds s1 = sortIds s2 ∧ c1 = c2 := by
   unfold superrunKey at h
-  have h1 := (String.append_right_inj name).mp h
-  have h2 := (String.append_right_inj "_").mp h1
-  exact hH _ _ _ _ h2
+  exact hH _ _ _ _ (Prod.mk.inj h).2
 
 /-! ## 2. `define_run` -/
 
